@@ -43,7 +43,12 @@ var monOf = map[string][]string{
 func main() {
 	if par.IsWorker() {
 		var j Job
-		par.WorkerMain(&j, func() interface{} { return runJob(j) })
+		par.WorkerMain(&j, func() interface{} {
+			t0 := time.Now()
+			st := runJob(j)
+			st.WallSeconds = time.Since(t0).Seconds()
+			return st
+		})
 	}
 	prop := flag.String("prop", "", "property id")
 	tier := flag.String("tier", "quick", "quick|thorough")
@@ -281,6 +286,15 @@ func buildJobs(prop, tier string) []interface{} {
 						continue
 					}
 				}
+				if m >= 4 {
+					// 3.4e6 states per base with the full alphabets (half an hour per job): the widest buffer
+					// gets the smaller sequence / kind alphabets and the first and last base
+					o = []uint32{0, 1, 2, 4}
+					k = []string{"mid", "fin", "eoe"}
+					if b != bases[0] && b != bases[len(bases)-1] {
+						continue
+					}
+				}
 				cfg := Config{MaxInFlight: m, TimeoutTicks: to, Base: b, Offsets: o, Kinds: k, Ticks: tk, MaxRecs: 2, PostClose: 2}
 				jobs = append(jobs, Job{Mode: "bfs", Cfg: cfg, MaxStates: maxStates})
 			}
@@ -309,7 +323,7 @@ func buildJobs(prop, tier string) []interface{} {
 	jobs = append(jobs, Job{Mode: "scale", Scenario: "mixed", N: 1500, Cfg: Config{MaxInFlight: 1000, TimeoutTicks: farTimeout, Base: 1<<31 - 900, Offsets: []uint32{0}, Kinds: []string{"mid"}, MaxRecs: 3, PostClose: 1}})
 	big := 20000
 	if thorough {
-		big = 70000
+		big = 40000
 	}
 	jobs = append(jobs, Job{Mode: "scale", Scenario: "gaps-one-maintain", N: 3000, Cfg: Config{MaxInFlight: 5000, TimeoutTicks: 2, Base: 5, Offsets: []uint32{0}, Kinds: []string{"mid"}, MaxRecs: 3, PostClose: 1}})
 	jobs = append(jobs, Job{Mode: "scale", Scenario: "gaps-one-push", N: 3000, Cfg: Config{MaxInFlight: 5000, TimeoutTicks: farTimeout, Base: 1<<32 - 1000, Offsets: []uint32{0}, Kinds: []string{"mid"}, MaxRecs: 3, PostClose: 1}})
@@ -416,7 +430,7 @@ func check(prop, tier string) int {
 		if st.Mode == "bfs-closure" && st.Outcomes < 2 && st.States > 10 {
 			run.Errorf("vacuous exploration: %s produced %d distinct outcomes", st.Config, st.Outcomes)
 		}
-		perJob = append(perJob, map[string]interface{}{"config": st.Config, "mode": st.Mode, "states": st.States, "transitions": st.Transitions, "max_depth": st.MaxDepth, "outcomes": st.Outcomes, "exhaustive": st.Exhaustive})
+		perJob = append(perJob, map[string]interface{}{"config": st.Config, "mode": st.Mode, "states": st.States, "transitions": st.Transitions, "max_depth": st.MaxDepth, "outcomes": st.Outcomes, "exhaustive": st.Exhaustive, "worker_wall_s": float64(int(st.WallSeconds*10)) / 10})
 		for _, s := range st.Samples {
 			run.Sample(st.Mode + " | " + st.Config + " | " + s)
 		}
